@@ -98,9 +98,9 @@ pub fn run_bb(args: &Args) {
             Some((seq, lens, hints, into)) => sh.emit("bb_iter", &format!("\"a\":{},\"k\":\"ok\",\"seq\":{},\"lens\":{},\"hints\":{},\"into\":{}", jbb(a), jlist(&seq), jlist(&lens), hints, jlist(&into))),
             None => sh.emit("bb_iter", &format!("\"a\":{},\"k\":\"panic\",\"seq\":[],\"lens\":[],\"hints\":false,\"into\":[]", jbb(a))),
         }
-        // subset iteration on masks of up to `bits` bits
+        // subset iteration on masks of up to `bits` bits (the empty mask first: it has exactly one subset)
         if i % 4 == 0 {
-            let bits = 1 + rng.below(args.num("subset-bits", 8));
+            let bits = if i == 0 { 0 } else { 1 + rng.below(args.num("subset-bits", 8)) };
             let mut m = BitBoard::EMPTY;
             while (m.len() as u64) < bits {
                 let s = if rng.chance(1, 5) { 63 - rng.below(3) } else if rng.chance(1, 5) { rng.below(3) } else { rng.below(64) };
@@ -340,6 +340,45 @@ pub fn run_coord(args: &Args) {
     }
     for t in ["e4 ", " e4", "e44", "E4", "é4", "e٤", "a1\0", "ａ1", "a１", "e4\n", "kk", "P", "N", "W", "B", "white", "wb", "ee", "11"] {
         parse_all(&mut sh, t, &SMALL);
+    }
+    // look-alikes: one character of a valid text replaced by a code point congruent to it modulo 256 / 65536
+    // (catches parsers that truncate characters to bytes), and by its upper-case / full-width form
+    {
+        let mut valid: Vec<(&str, String)> = vec![];
+        for &s in &Square::ALL {
+            if (s as usize) % 5 == 0 {
+                valid.push(("square", format!("{}", s)));
+            }
+        }
+        for &f in &File::ALL {
+            valid.push(("file", format!("{}", f)));
+        }
+        for &r in &Rank::ALL {
+            valid.push(("rank", format!("{}", r)));
+        }
+        for &p in &Piece::ALL {
+            valid.push(("piece", format!("{}", p)));
+        }
+        for &c in &Color::ALL {
+            valid.push(("color", format!("{}", c)));
+        }
+        for t in ["e2e4", "a7a8q", "h2h1n", "b1c3"] {
+            valid.push(("move", t.to_string()));
+        }
+        sh.next_history();
+        for (ty, t) in valid {
+            let cs: Vec<char> = t.chars().collect();
+            for i in 0..cs.len() {
+                for delta in [0x100u32, 0x200, 0xFF00, 0x10000, 0xFEE0] {
+                    if let Some(ch) = char::from_u32(cs[i] as u32 + delta) {
+                        let mut c = cs.clone();
+                        c[i] = ch;
+                        let v: String = c.iter().collect();
+                        parse_all(&mut sh, &v, &[ty]);
+                    }
+                }
+            }
+        }
     }
     // moves: all legal-shape values (sampled unless --all-moves 1), near misses, random strings
     let all_moves = args.num("all-moves", 0) == 1;
